@@ -26,6 +26,8 @@ let behaviour_used =
   | _ -> current_behaviour
 
 let arrays : (ostring, darray) OHashtbl.t = OHashtbl.create 8
+(* unit of the column a data-frame dimension points at (dimension token FC), per array: None = no column index *)
+let col_units : (ostring, string option olist) OHashtbl.t = OHashtbl.create 8
 let the_tag = ref { t_pos = []; t_ext = []; t_units = []; t_refs = []; t_feats = [] }
 let the_mtag = ref { m_pos = { n_shape = []; n_data = [] }; m_ext = None; m_units = []; m_refs = []; m_feats = [] }
 let refs : darray olist ref = ref []
@@ -34,7 +36,8 @@ let feats : feature olist ref = ref []
 let rec take k l = if k = 0 then [] else match l with [] -> failwith "short line" | h :: t -> h :: take (k - 1) t
 let rec drop k l = if k = 0 then l else match l with [] -> failwith "short line" | _ :: t -> drop (k - 1) t
 let unit_opt t = if t = "-" then None else Some (cstr (dec_str t))
-let unit_str t = cstr (dec_str t)
+(* Tag::units / MultiTag::units store the sanitised string (deblanked, mu -> u) *)
+let unit_str t = unitSanitizer (cstr (dec_str t))
 
 (* parse one dimension descriptor, return it and the remaining tokens *)
 let parse_dim toks = match toks with
@@ -56,6 +59,7 @@ let parse_dim toks = match toks with
      | [] -> failwith "bad A")
   | "L" :: n :: rest -> (DSet (z_of_string n), rest)
   | "F" :: n :: rest -> (DFrame (z_of_string n), rest)
+  | "FC" :: n :: _ :: rest -> (DFrame (z_of_string n), rest)     (* with column index 0: same axis, only its unit differs *)
   | _ -> failwith "bad dim"
 
 let rec parse_dims n toks = if n = 0 then [] else let (d, rest) = parse_dim toks in d :: parse_dims (n - 1) rest
@@ -115,6 +119,15 @@ let handle toks =
     let shape = OLst.map z_of_string (take rank rest) in
     let dims = parse_dims rank (drop rank rest) in
     OHashtbl.replace arrays aid { a_shape = shape; a_dims = dims };
+    (* column units of the FC dimensions, in order *)
+    let rec cols toks = (match toks with
+        | [] -> []
+        | "S" :: _ :: _ :: _ :: r -> None :: cols r
+        | ("R" | "A") :: k :: r -> None :: cols (drop (oint_of_string k + 1) r)
+        | ("L" | "F") :: _ :: r -> None :: cols r
+        | "FC" :: _ :: u :: r -> Some (if u = "-" then cstr "" else cstr (dec_str u)) :: cols r
+        | _ -> failwith "bad dims") in
+    OHashtbl.replace col_units aid (cols (drop rank rest));
     "OK done"
   | "tag" :: rest ->
     let (pos, rest) = counted dec_dbl rest in
@@ -141,12 +154,39 @@ let handle toks =
     feats := !feats @ [{ f_link = l; f_data = arr aid }];
     the_tag := { !the_tag with t_feats = !feats }; the_mtag := { !the_mtag with m_feats = !feats };
     "OK done"
+  (* ---- functions of dataAccess.hpp called directly ---- *)
+  | ["dimunit"; aid; d] ->
+    let a = arr aid and d = oint_of_string d in
+    (match OLst.nth_opt a.a_dims d, OLst.nth_opt (OHashtbl.find col_units aid) d with
+     | Some (DFrame _), Some (Some cu) -> "OK " ^ enc_str (ostr (frame_dim_unit (Some cu)))
+     | Some dim, _ -> "OK " ^ enc_str (ostr (getDimensionUnit dim))
+     | None, _ -> failwith "bad dimension")
+  | "indata" :: aid :: rest ->
+    let a = arr aid in
+    let (pos, rest) = counted z_of_string rest in
+    let (cnt, _) = counted z_of_string rest in
+    "OK " ^ bool01 (positionInData a.a_shape pos) ^ " " ^ bool01 (positionAndExtentInData a.a_shape pos cnt)
+  | ["pti1"; aid; d; p; u; r] ->
+    let a = arr aid in
+    let rule = (match r with "L" -> PositionMatch_Less | "LE" -> PositionMatch_LessOrEqual | "GE" -> PositionMatch_GreaterOrEqual
+                           | "G" -> PositionMatch_Greater | "EQ" -> PositionMatch_Equal | _ -> failwith "bad rule") in
+    show_res (function Some i -> string_of_z i | None -> "none")
+      (positionToIndex_one (dec_dbl p) (cstr (dec_str u)) rule (OLst.nth a.a_dims (oint_of_string d)))
+  | "ptiv" :: aid :: d :: m :: rest ->
+    let a = arr aid in
+    let (ss, rest) = counted dec_dbl rest in
+    let (es, rest) = counted dec_dbl rest in
+    let (us, _) = counted (fun x -> cstr (dec_str x)) rest in
+    let m = (match m with "incl" -> RangeMatch_Inclusive | "excl" -> RangeMatch_Exclusive | _ -> failwith "bad mode") in
+    show_res (fun l -> ostring_of_int (OLst.length l) ^ OStr.concat "" (OLst.map (function
+        | Some (x, y) -> " [" ^ string_of_z x ^ " " ^ string_of_z y ^ "]" | None -> " [none]") l))
+      (positionToIndex_vec ss es us m (OLst.nth a.a_dims (oint_of_string d)))
   (* ---- Tag ---- *)
   | ["offcnt"; aid; m] ->
     let a = arr aid and m = mode_of `Offcnt m in
     show_res show_oc (getOffsetAndCount_tag b !the_tag a m)
     ^ " ## " ^ show_sp show_oc3 (offcnt_sp (of_answer (spec_tag_view (incl_of m) !the_tag a)))
-  | ["tagged"; r; m] ->
+  | ["wtagged"; r; m] | ["tagged"; r; m] ->
     let m = mode_of `Retr m and r = oint_of_string r in
     let res = taggedData_tag_ref b !the_tag (z_of_int r) m in
     (match nth_opt !refs r with
@@ -179,7 +219,7 @@ let handle toks =
        show_res (show_list (show_view a.a_shape)) res
        ^ " ## " ^ show_sp (show_list show_view3) (of_answer (spec_mtag_views (incl_of m) !the_mtag a idxs))
      | None -> show_res (fun _ -> "") res ^ " ## ERR nix::OutOfBounds")
-  | ["mtagged1"; r; m; i] ->
+  | ["mwtagged1"; r; m; i] | ["mtagged1"; r; m; i] ->
     let m = mode_of `Retr m and r = oint_of_string r and i = z_of_string i in
     let res = taggedData_mtag1_ref b !the_mtag i (z_of_int r) m in
     (match nth_opt !refs r with
